@@ -287,6 +287,7 @@ theorem kind_text_shape (k : LKind) : ∃ (i : List Char) (c : Char), k.text.toL
   · exact ⟨".whileen".toList, 'd', by decide, by decide⟩
   · exact ⟨".dowhil".toList, 'e', by decide, by decide⟩
   · exact ⟨".dowhileen".toList, 'd', by decide, by decide⟩
+  · exact ⟨".dowhileconditio".toList, 'n', by decide, by decide⟩
   · exact ⟨".fo".toList, 'r', by decide, by decide⟩
   · exact ⟨".forupdat".toList, 'e', by decide, by decide⟩
   · exact ⟨".foren".toList, 'd', by decide, by decide⟩
@@ -428,23 +429,31 @@ theorem not_in_fresh {gx : GState} {r : List GLine × GState} {l : Lbl} (hf : Fr
 theorem le_ctr {g : GState} {r : List GLine × GState} (h : Fresh g r) (c : Ctr) : g.ctr c ≤ r.2.ctr c := h.1 c
 
 /-- the labels defined by the code of a statement are pairwise distinct -/
-theorem gen_labels_nodup (st : SStmt) : ∀ g : GState, (labels (gen g st).1).Nodup := by
+theorem gen_labels_nodup (st : SStmt) : ∀ (lp : LoopCtx) (g : GState), (labels (gen lp g st).1).Nodup := by
   induction st with
-  | flat s => intro g; simp [gen, genFlat, labels_flatLines]
-  | skip => intro g; simp [gen]
+  | flat s => intro lp g; simp [gen, genFlat, labels_flatLines]
+  | skip => intro lp g; simp [gen]
+  | brk => intro lp g; cases lp <;> simp [gen]
+  | cont => intro lp g; cases lp <;> simp [gen]
+  | ifBrk c => intro lp g; cases lp with
+    | none => simp [gen]
+    | some p => simpa [gen] using genCond_nodup c { g with cIf := g.cIf + 1 } false p.2
+  | ifCont c => intro lp g; cases lp with
+    | none => simp [gen]
+    | some p => simpa [gen] using genCond_nodup c { g with cIf := g.cIf + 1 } false p.1
   | seq a b iha ihb =>
-    intro g
+    intro lp g
     simp only [gen]
-    exact nodup_two (gen_fresh a g) (gen_fresh b _) (iha g) (ihb _)
+    exact nodup_two (gen_fresh a lp g) (gen_fresh b lp _) (iha lp g) (ihb lp _)
   | ifThen c t iht =>
-    intro g
+    intro lp g
     simp only [gen]
     rcases hcc : genCond { g with cIf := g.cIf + 1 } c true ⟨.ifend, g.cIf + 1⟩ with ⟨cc, g1⟩
-    rcases hct : gen g1 t with ⟨ct, g2⟩
+    rcases hct : gen lp g1 t with ⟨ct, g2⟩
     have hc : Fresh { g with cIf := g.cIf + 1 } (cc, g1) := hcc ▸ genCond_fresh ..
-    have ht : Fresh g1 (ct, g2) := hct ▸ gen_fresh t g1
+    have ht : Fresh g1 (ct, g2) := hct ▸ gen_fresh t lp g1
     have nc : (labels cc).Nodup := by have := genCond_nodup c { g with cIf := g.cIf + 1 } true ⟨.ifend, g.cIf + 1⟩; rwa [hcc] at this
-    have nt : (labels ct).Nodup := by have := iht g1; rwa [hct] at this
+    have nt : (labels ct).Nodup := by have := iht lp g1; rwa [hct] at this
     have h2 := nodup_two hc ht nc nt
     have k1 := le_ctr hc .cIf
     simp [GState.ctr] at k1
@@ -459,20 +468,20 @@ theorem gen_labels_nodup (st : SStmt) : ∀ g : GState, (labels (gen g st).1).No
     · exact not_in_fresh hc (by simp [LKind.ctr, GState.ctr, Lbl.idx]) ha
     · exact not_in_fresh ht (by simp [LKind.ctr, GState.ctr, Lbl.idx]; omega) ha
   | ifElse c t e iht ihe =>
-    intro g
+    intro lp g
     simp only [gen]
     rcases hcc : genCond { g with cIf := g.cIf + 1 } c true ⟨.else_, g.cIf + 1⟩ with ⟨cc, g1⟩
-    rcases hct : gen g1 t with ⟨ct, g2⟩
-    rcases hce : gen { g2 with flags := if c.singleExit then g1.flags else none } e with ⟨ce, g3⟩
+    rcases hct : gen lp g1 t with ⟨ct, g2⟩
+    rcases hce : gen lp { g2 with flags := if c.singleExit then g1.flags else none } e with ⟨ce, g3⟩
     have hc : Fresh { g with cIf := g.cIf + 1 } (cc, g1) := hcc ▸ genCond_fresh ..
-    have ht : Fresh g1 (ct, g2) := hct ▸ gen_fresh t g1
+    have ht : Fresh g1 (ct, g2) := hct ▸ gen_fresh t lp g1
     have he : Fresh g2 (ce, g3) := by
-      have := gen_fresh e { g2 with flags := if c.singleExit then g1.flags else none }
+      have := gen_fresh e lp { g2 with flags := if c.singleExit then g1.flags else none }
       rw [hce, fresh_flags_left] at this
       exact this
     have nc : (labels cc).Nodup := by have := genCond_nodup c { g with cIf := g.cIf + 1 } true ⟨.else_, g.cIf + 1⟩; rwa [hcc] at this
-    have nt : (labels ct).Nodup := by have := iht g1; rwa [hct] at this
-    have ne : (labels ce).Nodup := by have := ihe { g2 with flags := if c.singleExit then g1.flags else none }; rwa [hce] at this
+    have nt : (labels ct).Nodup := by have := iht lp g1; rwa [hct] at this
+    have ne : (labels ce).Nodup := by have := ihe lp { g2 with flags := if c.singleExit then g1.flags else none }; rwa [hce] at this
     have k1 := le_ctr hc .cIf
     have k2 := le_ctr ht .cIf
     simp [GState.ctr] at k1 k2
@@ -507,15 +516,15 @@ theorem gen_labels_nodup (st : SStmt) : ∀ g : GState, (labels (gen g st).1).No
     · simp at hin
     · exact key _ rfl rfl hin
   | «while» c b ihb =>
-    intro g
+    intro lp g
     simp only [gen]
     rcases hcc : genCond { g with cWhile := g.cWhile + 1, flags := none } c true ⟨.whileend, g.cWhile + 1⟩ with ⟨cc, g1⟩
-    rcases hcb : gen g1 b with ⟨cb, g2⟩
+    rcases hcb : gen (some (⟨.while_, g.cWhile + 1⟩, ⟨.whileend, g.cWhile + 1⟩)) g1 b with ⟨cb, g2⟩
     have hc : Fresh { g with cWhile := g.cWhile + 1, flags := none } (cc, g1) := hcc ▸ genCond_fresh ..
-    have hb : Fresh g1 (cb, g2) := hcb ▸ gen_fresh b g1
+    have hb : Fresh g1 (cb, g2) := hcb ▸ gen_fresh b _ g1
     have nc : (labels cc).Nodup := by
       have := genCond_nodup c { g with cWhile := g.cWhile + 1, flags := none } true ⟨.whileend, g.cWhile + 1⟩; rwa [hcc] at this
-    have nb : (labels cb).Nodup := by have := ihb g1; rwa [hcb] at this
+    have nb : (labels cb).Nodup := by have := ihb (some (⟨.while_, g.cWhile + 1⟩, ⟨.whileend, g.cWhile + 1⟩)) g1; rwa [hcb] at this
     have k1 := le_ctr hc .cWhile
     simp [GState.ctr] at k1
     have h2 : (labels (cc ++ cb)).Nodup := nodup_two hc hb nc nb
@@ -541,14 +550,18 @@ theorem gen_labels_nodup (st : SStmt) : ∀ g : GState, (labels (gen g st).1).No
     · simp at hin
     · exact key _ rfl rfl hin
   | doWhile b c ihb =>
-    intro g
+    intro lp g
     simp only [gen]
-    rcases hcb : gen { g with cWhile := g.cWhile + 1, flags := none } b with ⟨cb, g1⟩
-    rcases hcc : genCond g1 c false ⟨.dowhile, g.cWhile + 1⟩ with ⟨cc, g2⟩
-    have hb : Fresh { g with cWhile := g.cWhile + 1, flags := none } (cb, g1) := hcb ▸ gen_fresh b _
-    have hc : Fresh g1 (cc, g2) := hcc ▸ genCond_fresh ..
-    have nb : (labels cb).Nodup := by have := ihb { g with cWhile := g.cWhile + 1, flags := none }; rwa [hcb] at this
-    have nc : (labels cc).Nodup := by have := genCond_nodup c g1 false ⟨.dowhile, g.cWhile + 1⟩; rwa [hcc] at this
+    rcases hcb : gen (some (⟨.dowhilecondition, g.cWhile + 1⟩, ⟨.dowhileend, g.cWhile + 1⟩)) { g with cWhile := g.cWhile + 1, flags := none } b with ⟨cb, g1⟩
+    rcases hcc : genCond (if contHere b then { g1 with flags := none } else g1) c false ⟨.dowhile, g.cWhile + 1⟩ with ⟨cc, g2⟩
+    have hb : Fresh { g with cWhile := g.cWhile + 1, flags := none } (cb, g1) := hcb ▸ gen_fresh b _ _
+    have hc : Fresh g1 (cc, g2) := by
+      have : Fresh (if contHere b then { g1 with flags := none } else g1) (cc, g2) := hcc ▸ genCond_fresh ..
+      by_cases hcn : contHere b = true
+      · simp only [hcn, if_true] at this; rwa [fresh_flags_left] at this
+      · simpa [hcn] using this
+    have nb : (labels cb).Nodup := by have := ihb (some (⟨.dowhilecondition, g.cWhile + 1⟩, ⟨.dowhileend, g.cWhile + 1⟩)) { g with cWhile := g.cWhile + 1, flags := none }; rwa [hcb] at this
+    have nc : (labels cc).Nodup := by have := genCond_nodup c (if contHere b then { g1 with flags := none } else g1) false ⟨.dowhile, g.cWhile + 1⟩; rwa [hcc] at this
     have k1 := le_ctr hb .cWhile
     simp [GState.ctr] at k1
     have h2 : (labels (cb ++ cc)).Nodup := nodup_two hb hc nb nc
@@ -559,27 +572,52 @@ theorem gen_labels_nodup (st : SStmt) : ∀ g : GState, (labels (gen g st).1).No
       rcases hin with hin | hin
       · exact not_in_fresh hb (by simp [hk, hn, GState.ctr]) hin
       · exact not_in_fresh hc (by simp [hk, hn, GState.ctr]; omega) hin
-    have hperm : (labels ([GLine.lab ⟨.dowhile, g.cWhile + 1⟩] ++ cb ++ cc ++ [GLine.lab ⟨.dowhileend, g.cWhile + 1⟩])).Perm
-        ((⟨.dowhile, g.cWhile + 1⟩ : Lbl) :: ⟨.dowhileend, g.cWhile + 1⟩ :: labels (cb ++ cc)) := by
-      simp only [labels_append, labels_lab, labels_nil, List.singleton_append, List.cons_append, List.nil_append]
-      refine List.Perm.cons _ ?_
-      exact List.perm_append_singleton _ _
-    rw [hperm.nodup_iff]
-    refine List.nodup_cons.mpr ⟨?_, List.nodup_cons.mpr ⟨key _ rfl rfl, h2⟩⟩
-    intro hin
-    simp only [List.mem_cons] at hin
-    rcases hin with hin | hin
-    · simp at hin
-    · exact key _ rfl rfl hin
+    by_cases hcn : contHere b = true
+    · simp only [hcn, if_true]
+      have hperm : (labels ([GLine.lab ⟨.dowhile, g.cWhile + 1⟩] ++ cb ++ [GLine.lab ⟨.dowhilecondition, g.cWhile + 1⟩] ++ cc ++ [GLine.lab ⟨.dowhileend, g.cWhile + 1⟩])).Perm
+          ((⟨.dowhile, g.cWhile + 1⟩ : Lbl) :: ⟨.dowhileend, g.cWhile + 1⟩ :: ⟨.dowhilecondition, g.cWhile + 1⟩ :: labels (cb ++ cc)) := by
+        simp only [labels_append, labels_lab, labels_nil, List.singleton_append, List.cons_append, List.nil_append]
+        refine List.Perm.cons _ ?_
+        refine (List.perm_append_singleton _ _).trans (List.Perm.cons _ ?_)
+        have e1 : labels cb ++ [(⟨.dowhilecondition, g.cWhile + 1⟩ : Lbl)] ++ labels cc
+            = labels cb ++ (⟨.dowhilecondition, g.cWhile + 1⟩ : Lbl) :: labels cc := by simp
+        rw [e1]
+        exact List.perm_middle
+      rw [hperm.nodup_iff]
+      refine List.nodup_cons.mpr ⟨?_, List.nodup_cons.mpr ⟨?_, List.nodup_cons.mpr ⟨key _ rfl rfl, h2⟩⟩⟩
+      · intro hin
+        simp only [List.mem_cons] at hin
+        rcases hin with hin | hin | hin
+        · simp at hin
+        · simp at hin
+        · exact key _ rfl rfl hin
+      · intro hin
+        simp only [List.mem_cons] at hin
+        rcases hin with hin | hin
+        · simp at hin
+        · exact key _ rfl rfl hin
+    · simp only [hcn, Bool.false_eq_true, if_false, List.append_nil]
+      have hperm : (labels ([GLine.lab ⟨.dowhile, g.cWhile + 1⟩] ++ cb ++ cc ++ [GLine.lab ⟨.dowhileend, g.cWhile + 1⟩])).Perm
+          ((⟨.dowhile, g.cWhile + 1⟩ : Lbl) :: ⟨.dowhileend, g.cWhile + 1⟩ :: labels (cb ++ cc)) := by
+        simp only [labels_append, labels_lab, labels_nil, List.singleton_append, List.cons_append, List.nil_append]
+        refine List.Perm.cons _ ?_
+        exact List.perm_append_singleton _ _
+      rw [hperm.nodup_iff]
+      refine List.nodup_cons.mpr ⟨?_, List.nodup_cons.mpr ⟨key _ rfl rfl, h2⟩⟩
+      intro hin
+      simp only [List.mem_cons] at hin
+      rcases hin with hin | hin
+      · simp at hin
+      · exact key _ rfl rfl hin
   | «for» i c u b ihb =>
-    intro g
+    intro lp g
     simp only [gen, genFlat]
     rcases hc1 : genCond { g with cFor := g.cFor + 1, flags := flagsAfter (zpL g.abs) g.flags i } c true ⟨.forend, g.cFor + 1⟩ with ⟨c1, g2⟩
-    rcases hcb : gen { g2 with flags := none } b with ⟨cb, g3⟩
+    rcases hcb : gen (some (⟨.forupdate, g.cFor + 1⟩, ⟨.forend, g.cFor + 1⟩)) { g2 with flags := none } b with ⟨cb, g3⟩
     rcases hc2 : genCond { g3 with flags := flagsAfter (zpL g3.abs) none u } c false ⟨.for_, g.cFor + 1⟩ with ⟨c2, g5⟩
     have hf1 : Fresh { g with cFor := g.cFor + 1, flags := flagsAfter (zpL g.abs) g.flags i } (c1, g2) := hc1 ▸ genCond_fresh ..
     have hfb : Fresh g2 (cb, g3) := by
-      have := gen_fresh b { g2 with flags := none }
+      have := gen_fresh b (some (⟨.forupdate, g.cFor + 1⟩, ⟨.forend, g.cFor + 1⟩)) { g2 with flags := none }
       rw [hcb, fresh_flags_left] at this
       exact this
     have hf2 : Fresh g3 (c2, g5) := by
@@ -587,7 +625,7 @@ theorem gen_labels_nodup (st : SStmt) : ∀ g : GState, (labels (gen g st).1).No
       rwa [fresh_flags_left] at this
     have n1 : (labels c1).Nodup := by
       have := genCond_nodup c { g with cFor := g.cFor + 1, flags := flagsAfter (zpL g.abs) g.flags i } true ⟨.forend, g.cFor + 1⟩; rwa [hc1] at this
-    have nb : (labels cb).Nodup := by have := ihb { g2 with flags := none }; rwa [hcb] at this
+    have nb : (labels cb).Nodup := by have := ihb (some (⟨.forupdate, g.cFor + 1⟩, ⟨.forend, g.cFor + 1⟩)) { g2 with flags := none }; rwa [hcb] at this
     have n2 : (labels c2).Nodup := by
       have := genCond_nodup c { g3 with flags := flagsAfter (zpL g3.abs) none u } false ⟨.for_, g.cFor + 1⟩; rwa [hc2] at this
     have k1 := le_ctr hf1 .cFor
@@ -638,8 +676,8 @@ namespace CV.C13
 open CV CV.GenStruct CV.GenFlat CV.GenReg
 
 /-- as text: no two label lines of a statement's code carry the same label -/
-theorem gen_label_texts_nodup (st : SStmt) (g : GState) : ((labels (gen g st).1).map Lbl.text).Nodup := by
-  have h := gen_labels_nodup st g
+theorem gen_label_texts_nodup (st : SStmt) (lp : LoopCtx) (g : GState) : ((labels (gen lp g st).1).map Lbl.text).Nodup := by
+  have h := gen_labels_nodup st lp g
   unfold List.Nodup at h ⊢
   exact List.Pairwise.map Lbl.text (fun a b hab e => hab (label_text_injective a b e)) h
 
@@ -758,91 +796,181 @@ theorem genCond_targets (c : Cond) : ∀ (g : GState) (negate : Bool) (label : L
         · exact Or.inl h
         · exact Or.inr (Or.inr (Or.inl h))
 
-/-- no branch or jump of a statement's code leaves the code: every target is a label defined in it -/
-theorem gen_targets_defined (st : SStmt) : ∀ g : GState, ∀ l ∈ targets (gen g st).1, l ∈ labels (gen g st).1 := by
+/-- the labels a statement may jump to outside its own code: the break label of the enclosing loop, and its
+    continue label when the statement contains a `continue` of that loop -/
+def extTargets (lp : LoopCtx) (needC : Bool) : List Lbl :=
+  match lp with
+  | none => []
+  | some (cl, bl) => bl :: (if needC then [cl] else [])
+
+theorem extTargets_mono (lp : LoopCtx) {n n' : Bool} (h : n = true → n' = true) (l : Lbl) (hl : l ∈ extTargets lp n) :
+    l ∈ extTargets lp n' := by
+  cases lp with
+  | none => simpa [extTargets] using hl
+  | some p =>
+    obtain ⟨cl, bl⟩ := p
+    simp only [extTargets, List.mem_cons] at hl ⊢
+    rcases hl with hl | hl
+    · exact Or.inl hl
+    · right
+      cases hn : n with
+      | false => simp [hn] at hl
+      | true => simp [hn] at hl; simp [h hn, hl]
+
+@[simp] theorem targets_jmp_single (l : Lbl) : targets [GLine.jmp l] = [l] := rfl
+
+/-- every branch or jump of a statement's code goes to a label defined in that code, or to a label of the
+    enclosing loop -/
+theorem gen_targets (st : SStmt) : ∀ (lp : LoopCtx) (g : GState),
+    ∀ l ∈ targets (gen lp g st).1, l ∈ labels (gen lp g st).1 ∨ l ∈ extTargets lp (contHere st) := by
   induction st with
-  | flat s => intro g l hl; simp [gen, genFlat, targets_flatLines] at hl
-  | skip => intro g l hl; simp [gen] at hl
+  | flat s => intro lp g l hl; simp [gen, genFlat, targets_flatLines] at hl
+  | skip => intro lp g l hl; simp [gen] at hl
+  | brk =>
+    intro lp g l hl
+    cases lp with
+    | none => simp [gen] at hl
+    | some p => obtain ⟨cl, bl⟩ := p; simp [gen] at hl; subst hl; right; simp [extTargets]
+  | cont =>
+    intro lp g l hl
+    cases lp with
+    | none => simp [gen] at hl
+    | some p => obtain ⟨cl, bl⟩ := p; simp [gen] at hl; subst hl; right; simp [extTargets, contHere]
+  | ifBrk c =>
+    intro lp g l hl
+    cases lp with
+    | none => simp [gen] at hl
+    | some p =>
+      obtain ⟨cl, bl⟩ := p
+      simp only [gen] at hl ⊢
+      rcases genCond_targets c { g with cIf := g.cIf + 1 } false bl l hl with h | h
+      · right; simp [extTargets, h]
+      · exact Or.inl h
+  | ifCont c =>
+    intro lp g l hl
+    cases lp with
+    | none => simp [gen] at hl
+    | some p =>
+      obtain ⟨cl, bl⟩ := p
+      simp only [gen] at hl ⊢
+      rcases genCond_targets c { g with cIf := g.cIf + 1 } false cl l hl with h | h
+      · right; simp [extTargets, contHere, h]
+      · exact Or.inl h
   | seq a b iha ihb =>
-    intro g l hl
+    intro lp g l hl
     simp only [gen, targets_append, labels_append, List.mem_append] at hl ⊢
     rcases hl with hl | hl
-    · exact Or.inl (iha g l hl)
-    · exact Or.inr (ihb _ l hl)
+    · rcases iha lp g l hl with h | h
+      · exact Or.inl (Or.inl h)
+      · exact Or.inr (extTargets_mono lp (by simp [contHere]; intro e; exact Or.inl e) l h)
+    · rcases ihb lp _ l hl with h | h
+      · exact Or.inl (Or.inr h)
+      · exact Or.inr (extTargets_mono lp (by simp [contHere]; intro e; exact Or.inr e) l h)
   | ifThen c t iht =>
-    intro g l hl
+    intro lp g l hl
     simp only [gen] at hl ⊢
     have hc := genCond_targets c { g with cIf := g.cIf + 1 } true ⟨.ifend, g.cIf + 1⟩
     rcases hcc : genCond { g with cIf := g.cIf + 1 } c true ⟨.ifend, g.cIf + 1⟩ with ⟨cc, g1⟩
     rw [hcc] at hc hl
-    have ht := iht g1
-    rcases hct : gen g1 t with ⟨ct, g2⟩
+    have ht := iht lp g1
+    rcases hct : gen lp g1 t with ⟨ct, g2⟩
     rw [hct] at ht hl
     simp at hl ⊢
     rcases hl with hl | hl
     · rcases hc l hl with h | h
-      · exact Or.inr (Or.inr h)
-      · exact Or.inl h
-    · exact Or.inr (Or.inl (ht l hl))
+      · exact Or.inl (Or.inr (Or.inr h))
+      · exact Or.inl (Or.inl h)
+    · rcases ht l hl with h | h
+      · exact Or.inl (Or.inr (Or.inl h))
+      · exact Or.inr (by simpa [contHere] using h)
   | ifElse c t e iht ihe =>
-    intro g l hl
+    intro lp g l hl
     simp only [gen] at hl ⊢
     have hc := genCond_targets c { g with cIf := g.cIf + 1 } true ⟨.else_, g.cIf + 1⟩
     rcases hcc : genCond { g with cIf := g.cIf + 1 } c true ⟨.else_, g.cIf + 1⟩ with ⟨cc, g1⟩
     rw [hcc] at hc hl
-    have ht := iht g1
-    rcases hct : gen g1 t with ⟨ct, g2⟩
+    have ht := iht lp g1
+    rcases hct : gen lp g1 t with ⟨ct, g2⟩
     rw [hct] at ht hl
-    have he := ihe { g2 with flags := if c.singleExit then g1.flags else none }
-    rcases hce : gen { g2 with flags := if c.singleExit then g1.flags else none } e with ⟨ce, g3⟩
+    have he := ihe lp { g2 with flags := if c.singleExit then g1.flags else none }
+    rcases hce : gen lp { g2 with flags := if c.singleExit then g1.flags else none } e with ⟨ce, g3⟩
     rw [hce] at he hl
     simp at hl ⊢
     rcases hl with hl | hl | hl | hl
     · rcases hc l hl with h | h
-      · exact Or.inr (Or.inr (Or.inl h))
-      · exact Or.inl h
-    · exact Or.inr (Or.inl (ht l hl))
-    · exact Or.inr (Or.inr (Or.inr (Or.inr hl)))
-    · exact Or.inr (Or.inr (Or.inr (Or.inl (he l hl))))
+      · exact Or.inl (Or.inr (Or.inr (Or.inl h)))
+      · exact Or.inl (Or.inl h)
+    · rcases ht l hl with h | h
+      · exact Or.inl (Or.inr (Or.inl h))
+      · exact Or.inr (extTargets_mono lp (by simp [contHere]; intro e; exact Or.inl e) l h)
+    · exact Or.inl (Or.inr (Or.inr (Or.inr (Or.inr hl))))
+    · rcases he l hl with h | h
+      · exact Or.inl (Or.inr (Or.inr (Or.inr (Or.inl h))))
+      · exact Or.inr (extTargets_mono lp (by simp [contHere]; intro e; exact Or.inr e) l h)
   | «while» c b ihb =>
-    intro g l hl
+    intro lp g l hl
+    left
     simp only [gen] at hl ⊢
     have hc := genCond_targets c { g with cWhile := g.cWhile + 1, flags := none } true ⟨.whileend, g.cWhile + 1⟩
     rcases hcc : genCond { g with cWhile := g.cWhile + 1, flags := none } c true ⟨.whileend, g.cWhile + 1⟩ with ⟨cc, g1⟩
     rw [hcc] at hc hl
-    have hb := ihb g1
-    rcases hcb : gen g1 b with ⟨cb, g2⟩
+    have hb := ihb (some (⟨.while_, g.cWhile + 1⟩, ⟨.whileend, g.cWhile + 1⟩)) g1
+    rcases hcb : gen (some (⟨.while_, g.cWhile + 1⟩, ⟨.whileend, g.cWhile + 1⟩)) g1 b with ⟨cb, g2⟩
     rw [hcb] at hb hl
     simp at hl ⊢
     rcases hl with hl | hl | hl
     · rcases hc l hl with h | h
       · exact Or.inr (Or.inr (Or.inr h))
       · exact Or.inr (Or.inl h)
-    · exact Or.inr (Or.inr (Or.inl (hb l hl)))
+    · rcases hb l hl with h | h
+      · exact Or.inr (Or.inr (Or.inl h))
+      · simp only [extTargets, List.mem_cons] at h
+        rcases h with h | h
+        · exact Or.inr (Or.inr (Or.inr h))
+        · split at h
+          · simp at h; exact Or.inl h
+          · simp at h
     · exact Or.inl hl
   | doWhile b c ihb =>
-    intro g l hl
+    intro lp g l hl
+    left
     simp only [gen] at hl ⊢
-    have hb := ihb { g with cWhile := g.cWhile + 1, flags := none }
-    rcases hcb : gen { g with cWhile := g.cWhile + 1, flags := none } b with ⟨cb, g1⟩
+    have hb := ihb (some (⟨.dowhilecondition, g.cWhile + 1⟩, ⟨.dowhileend, g.cWhile + 1⟩)) { g with cWhile := g.cWhile + 1, flags := none }
+    rcases hcb : gen (some (⟨.dowhilecondition, g.cWhile + 1⟩, ⟨.dowhileend, g.cWhile + 1⟩)) { g with cWhile := g.cWhile + 1, flags := none } b with ⟨cb, g1⟩
     rw [hcb] at hb hl
-    have hc := genCond_targets c g1 false ⟨.dowhile, g.cWhile + 1⟩
-    rcases hcc : genCond g1 c false ⟨.dowhile, g.cWhile + 1⟩ with ⟨cc, g2⟩
+    have hc := genCond_targets c (if contHere b then { g1 with flags := none } else g1) false ⟨.dowhile, g.cWhile + 1⟩
+    rcases hcc : genCond (if contHere b then { g1 with flags := none } else g1) c false ⟨.dowhile, g.cWhile + 1⟩ with ⟨cc, g2⟩
     rw [hcc] at hc hl
-    simp at hl ⊢
-    rcases hl with hl | hl
-    · exact Or.inr (Or.inl (hb l hl))
-    · rcases hc l hl with h | h
-      · exact Or.inl h
-      · exact Or.inr (Or.inr (Or.inl h))
+    by_cases hcn : contHere b = true
+    · simp [hcn] at hl ⊢
+      rcases hl with hl | hl
+      · rcases hb l hl with h | h
+        · exact Or.inr (Or.inl h)
+        · simp only [extTargets, hcn, if_true, List.mem_cons, List.mem_singleton, List.not_mem_nil, or_false] at h
+          rcases h with h | h
+          · exact Or.inr (Or.inr (Or.inr (Or.inr h)))
+          · exact Or.inr (Or.inr (Or.inl h))
+      · rcases hc l hl with h | h
+        · exact Or.inl h
+        · exact Or.inr (Or.inr (Or.inr (Or.inl h)))
+    · simp [hcn] at hl ⊢
+      rcases hl with hl | hl
+      · rcases hb l hl with h | h
+        · exact Or.inr (Or.inl h)
+        · simp [extTargets, hcn] at h
+          exact Or.inr (Or.inr (Or.inr h))
+      · rcases hc l hl with h | h
+        · exact Or.inl h
+        · exact Or.inr (Or.inr (Or.inl h))
   | «for» i c u b ihb =>
-    intro g l hl
+    intro lp g l hl
+    left
     simp only [gen, genFlat] at hl ⊢
     have h1 := genCond_targets c { g with cFor := g.cFor + 1, flags := flagsAfter (zpL g.abs) g.flags i } true ⟨.forend, g.cFor + 1⟩
     rcases hc1 : genCond { g with cFor := g.cFor + 1, flags := flagsAfter (zpL g.abs) g.flags i } c true ⟨.forend, g.cFor + 1⟩ with ⟨c1, g2⟩
     rw [hc1] at h1 hl
-    have hb := ihb { g2 with flags := none }
-    rcases hcb : gen { g2 with flags := none } b with ⟨cb, g3⟩
+    have hb := ihb (some (⟨.forupdate, g.cFor + 1⟩, ⟨.forend, g.cFor + 1⟩)) { g2 with flags := none }
+    rcases hcb : gen (some (⟨.forupdate, g.cFor + 1⟩, ⟨.forend, g.cFor + 1⟩)) { g2 with flags := none } b with ⟨cb, g3⟩
     rw [hcb] at hb hl
     have h2 := genCond_targets c { g3 with flags := flagsAfter (zpL g3.abs) none u } false ⟨.for_, g.cFor + 1⟩
     rcases hc2 : genCond { g3 with flags := flagsAfter (zpL g3.abs) none u } c false ⟨.for_, g.cFor + 1⟩ with ⟨c2, g5⟩
@@ -852,9 +980,24 @@ theorem gen_targets_defined (st : SStmt) : ∀ g : GState, ∀ l ∈ targets (ge
     · rcases h1 l hl with h | h
       · exact Or.inr (Or.inr (Or.inr (Or.inr (Or.inr h))))
       · exact Or.inl h
-    · exact Or.inr (Or.inr (Or.inl (hb l hl)))
+    · rcases hb l hl with h | h
+      · exact Or.inr (Or.inr (Or.inl h))
+      · simp only [extTargets, List.mem_cons] at h
+        rcases h with h | h
+        · exact Or.inr (Or.inr (Or.inr (Or.inr (Or.inr h))))
+        · split at h
+          · simp at h; exact Or.inr (Or.inr (Or.inr (Or.inl h)))
+          · simp at h
     · rcases h2 l hl with h | h
       · exact Or.inr (Or.inl h)
       · exact Or.inr (Or.inr (Or.inr (Or.inr (Or.inl h))))
+
+/-- no branch or jump of a function body leaves the code: every target is a label defined in it (a `break` or
+    `continue` inside a loop of the body goes to that loop's labels; outside every loop none is generated) -/
+theorem gen_targets_defined (st : SStmt) (g : GState) : ∀ l ∈ targets (gen none g st).1, l ∈ labels (gen none g st).1 := by
+  intro l hl
+  rcases gen_targets st none g l hl with h | h
+  · exact h
+  · simp [extTargets] at h
 
 end CV.C13
